@@ -357,3 +357,69 @@ func TestF16UploadSubdirSymlinkEscape(t *testing.T) {
 		t.Errorf("upload escaped the module through the symlinked subdirectory: outside now holds %v (err=%v)\n%s", got, err, out)
 	}
 }
+
+// F18: a receiver that sends block checksums for an empty file (or a zero block
+// length) must not crash the sending daemon (index out of range in hashSearch).
+func TestF18ChecksumsForEmptyFile(t *testing.T) {
+	tmp := t.TempDir()
+	write(t, filepath.Join(tmp, "src", "e"), "")
+	write(t, filepath.Join(tmp, "src", "n"), "not empty")
+	srv := rsynctest.New(t, rsynctest.InteropModule(filepath.Join(tmp, "src")))
+	le := func(v int32) []byte { return []byte{byte(v), byte(v >> 8), byte(v >> 16), byte(v >> 24)} }
+	// block length 0 for a non-empty file (index 2 = "n")
+	conn0, err := net.Dial("tcp", "localhost:"+srv.Port)
+	if err != nil {
+		t.Fatal(err)
+	}
+	fmt.Fprintf(conn0, "@RSYNCD: 27\ninterop\n--server\n--sender\n-r\n.\ninterop/\n\n")
+	for _, v := range []int32{0, 2, 1, 0, 2, 0, 0x1234} {
+		conn0.Write(le(v))
+	}
+	conn0.Write([]byte{0xab, 0xcd})
+	conn0.SetDeadline(time.Now().Add(3 * time.Second))
+	io.Copy(io.Discard, conn0)
+	conn0.Close()
+	conn, err := net.Dial("tcp", "localhost:"+srv.Port)
+	if err != nil {
+		t.Fatal(err)
+	}
+	fmt.Fprintf(conn, "@RSYNCD: 27\ninterop\n--server\n--sender\n-r\n.\ninterop/\n\n")
+	conn.Write(le(0))   // empty filter list
+	conn.Write(le(1))   // request file index 1 ("e"; index 0 is ".")
+	conn.Write(le(1))   // sum head: one block ...
+	conn.Write(le(700)) // ... of 700 bytes
+	conn.Write(le(2))   // strong sum length 2
+	conn.Write(le(0))   // remainder
+	conn.Write(le(0x1234))
+	conn.Write([]byte{0xab, 0xcd})
+	conn.SetDeadline(time.Now().Add(3 * time.Second))
+	io.Copy(io.Discard, conn)
+	conn.Close()
+	dst := filepath.Join(tmp, "dst")
+	rsynctest.Run(t, "gokr-rsync", "--gokr.dont_restrict", "-a", "rsync://localhost:"+srv.Port+"/interop/", dst)
+	if !has(ls(t, dst), "e") {
+		t.Errorf("daemon did not serve after checksums for an empty file")
+	}
+}
+
+// F17: without -p an existing, up-to-date destination file keeps its own permissions.
+func TestF17ExistingPermsKeptWithoutP(t *testing.T) {
+	tmp := t.TempDir()
+	src, dst := filepath.Join(tmp, "src"), filepath.Join(tmp, "dst")
+	write(t, filepath.Join(src, "f"), "same")
+	write(t, filepath.Join(dst, "f"), "same")
+	mt := time.Unix(1257894000, 0)
+	os.Chtimes(filepath.Join(src, "f"), mt, mt)
+	os.Chtimes(filepath.Join(dst, "f"), mt, mt)
+	os.Chmod(filepath.Join(src, "f"), 0644)
+	os.Chmod(filepath.Join(dst, "f"), 0600)
+	srv := rsynctest.New(t, rsynctest.InteropModule(src))
+	rsynctest.Run(t, "gokr-rsync", "--gokr.dont_restrict", "-rt", "rsync://localhost:"+srv.Port+"/interop/", dst)
+	st, err := os.Stat(filepath.Join(dst, "f"))
+	if err != nil {
+		t.Fatal(err)
+	}
+	if st.Mode().Perm() != 0600 {
+		t.Errorf("without -p the up-to-date destination file was chmodded to %o, want 600", st.Mode().Perm())
+	}
+}
